@@ -1,5 +1,6 @@
 import NomtModel.Api.Reopen
 import NomtModel.Api.ExecRollback
+import NomtModel.Store.ProbeInv
 /-!
 # C10 — Reopening is transparent
 
@@ -47,5 +48,19 @@ theorem T10_4_finish_same_root (s : St Node VH) (ws : Writes VH) :
   simp [viewKV, reopen]
 
 example : (reopen ({ root := (0 : Nat), kv := [([true], (5 : Nat))], seqn := 3 } : St Nat Nat)).seqn = 3 := rfl
+
+/-- T10.5 **occupancy survives a reopen**: while a handle is open `hash_table_utilization().occupied`
+is a counter changed by `+1` per freshly allocated and `-1` per freed bucket (`occupied_buckets_delta`);
+opening recomputes it as `MetaMap::full_count` of the meta bytes.  In the bitbox model
+(`Store/ProbeModel.lean`) `occupied` IS `full_count`, and every operation of `prepare_sync` changes
+it by exactly that delta — so the counter of the old handle and the recount of the new one agree. -/
+theorem T10_5_occupancy_counter_is_full_count (hash : Nat → Nat) (lim : Nat) (T : Nomt.Store.Probe.Table)
+    (hn : 0 < T.n) (p : Nat) :
+    Nomt.Store.Probe.occupied (Nomt.Store.Probe.step hash lim T (.insert p)) =
+      Nomt.Store.Probe.occupied T +
+        (if Nomt.Store.Probe.find hash T p = none ∧ (Nomt.Store.Probe.alloc hash lim T p).isSome then 1 else 0) ∧
+    Nomt.Store.Probe.occupied (Nomt.Store.Probe.step hash lim T (.remove p)) +
+        (if (Nomt.Store.Probe.find hash T p).isSome then 1 else 0) = Nomt.Store.Probe.occupied T :=
+  ⟨Nomt.Store.Probe.occupied_step_insert hn p, Nomt.Store.Probe.occupied_step_remove p⟩
 
 end Nomt.C10
